@@ -83,6 +83,8 @@ class SeedReplayer:
 
 
 VARIANTS = ["eager", "jit", "vmap", "jitvmap", "kw", "vmapd"]
+# how vector sites get their shape / which primitive object the sites share (seedbuild.build)
+V_MODES = ["modular_vmap", "sample_shape", "shared_param", "shared_kw", "wrapped_kw"]
 
 
 def run(chk, tier, want):
@@ -128,7 +130,7 @@ def run(chk, tier, want):
             vi += 1
             if opaque and variant in ("vmap", "jitvmap", "vmapd", "kw"):
                 variant = "eager" if vi % 2 else "jit"
-            v_mode = "modular_vmap" if (vi // len(VARIANTS)) % 2 == 0 else "sample_shape"
+            v_mode = V_MODES[(vi // len(VARIANTS) + vi) % len(V_MODES)]
             key = f"prog={pname}|root={c['r']}|dec={sorted(dec.items())}"
             chk.case((pname, c["r"], repr(sorted(dec.items())), variant, v_mode, ci))
             chk.validated(1)
